@@ -3,11 +3,11 @@ value-tree generation, build-script generation (harness ops + model commands), e
 an independent FlatBuffers encoder (different layout choices) and generated C glue (verify / dump)."""
 import struct, os
 
-SCALAR = {'bool': 1, 'byte': 1, 'ubyte': 1, 'short': 2, 'ushort': 2, 'int': 4, 'uint': 4, 'float': 4,
+SCALAR = {'char': 1, 'bool': 1, 'byte': 1, 'ubyte': 1, 'short': 2, 'ushort': 2, 'int': 4, 'uint': 4, 'float': 4,
           'long': 8, 'ulong': 8, 'double': 8}
-CTYPE = {'bool': 'uint8_t', 'byte': 'int8_t', 'ubyte': 'uint8_t', 'short': 'int16_t', 'ushort': 'uint16_t',
+CTYPE = {'char': 'char', 'bool': 'uint8_t', 'byte': 'int8_t', 'ubyte': 'uint8_t', 'short': 'int16_t', 'ushort': 'uint16_t',
          'int': 'int32_t', 'uint': 'uint32_t', 'float': 'float', 'long': 'int64_t', 'ulong': 'uint64_t', 'double': 'double'}
-PACK = {'bool': 'B', 'byte': 'b', 'ubyte': 'B', 'short': 'h', 'ushort': 'H', 'int': 'i', 'uint': 'I', 'float': 'f',
+PACK = {'char': 'b', 'bool': 'B', 'byte': 'b', 'ubyte': 'B', 'short': 'h', 'ushort': 'H', 'int': 'i', 'uint': 'I', 'float': 'f',
         'long': 'q', 'ulong': 'Q', 'double': 'd'}
 UOFFSET_MAX = 0xffffffff
 
@@ -257,6 +257,8 @@ def corpus():
         Struct('A128', [('h', 'short')], force_align=128),
         Struct('A256', [('w', 'int')], force_align=256),
         # a nested struct that is NOT the last member (and two levels of it): members after it take the arguments after ALL of its leaves
+        # fixed-length char arrays: N bytes kept as they are (embedded NULs included), copied by every by-pointer / by-argument style
+        Struct('Nm', [('tag', ('char', 8)), ('n', 'ushort'), ('c3', ('char', 3))]),
         Struct('P2', [('x', 'short'), ('y', 'int')]),
         Struct('Mk', [('at', 'P2'), ('id', 'int'), ('k', 'ubyte')]),
         Struct('Mk2', [('a', 'ubyte'), ('m', 'Mk'), ('p', 'P2'), ('z', 'ushort'), ('q', 'B3'), ('e', 'double')]),
@@ -264,7 +266,8 @@ def corpus():
             Field('b1', 'B1'), Field('d8', 'D8'), Field('a16', 'A16'), Field('arr', 'Arr'), Field('vb3', '[B3]'),
             Field('va16', '[A16]'), Field('vd8', '[D8]'), Field('h2', 'H2'), Field('a64', 'A64'), Field('va64', '[A64]'),
             Field('tag', 'ubyte', '9'), Field('a128', 'A128'), Field('a256', 'A256'), Field('va256', '[A256]'),
-            Field('mk', 'Mk'), Field('mk2', 'Mk2'), Field('vmk', '[Mk]'), Field('vmk2', '[Mk2]')]),
+            Field('mk', 'Mk'), Field('mk2', 'Mk2'), Field('vmk', '[Mk]'), Field('vmk2', '[Mk2]'),
+            Field('nm', 'Nm'), Field('vnm', '[Nm]')]),
     ], 'St'))
     # 3. tables of tables, vectors of tables and strings, recursion, explicit permuted ids, deprecated field
     t3 = Table('Node', [
@@ -461,6 +464,10 @@ class ValueGen:
     def inline(self, t):
         """bytes of a scalar / struct / fixed array with zero padding"""
         if isinstance(t, tuple):
+            if t[0] == 'char':
+                # [char:N] is N bytes, zero padded but NOT zero terminated: embedded NULs (with text after them), no NUL at all, all NUL
+                r = self.rng
+                return bytes(r.choice([0, 0, r.randrange(1, 256), r.choice(b'ABCxyz')]) for _ in range(t[1])) if r.random() < 0.8 else bytes(r.randrange(1, 256) for _ in range(t[1]))
             return b''.join(self.inline(t[0]) for _ in range(t[1]))
         if t in self.s.structs:
             size, al, members = self.s.struct_layout(t)
@@ -934,7 +941,8 @@ class ScriptGen:
                     else:
                         arg = rng.choice([0, enc.maxal, max(enc.maxal, 16)]) if enc.maxal <= 8 else rng.choice([enc.maxal, 2 * enc.maxal])
                         eff = arg if arg else 8
-                    self.h.append('Gn:%d:%d:%s:%s:%d' % (t, j, var, hx(data), arg))
+                    # the source bytes at an address 0 / 4 / 1 / 2 / 8 / 12 modulo 256: the placement must not depend on it
+                    self.h.append('Gn:%d:%d:%s:%s:%d:%d' % (t, j, var, hx(data), arg, rng.choice([0, 4, 4, 1, 2, 8, 12])))
                     self.m.append('V:1:%d:%d:%d:%s' % (eff, UOFFSET_MAX, len(data), hx(data))); rb = self.new(); self.opaque.add(rb)
                 else:
                     size, al, _ = s.struct_layout(v.a)
@@ -1133,7 +1141,7 @@ def model_line(g): return 'run ' + ' '.join(g.m)
 
 
 # ----------------------------------------------------------------------------------------- generated C glue
-FBNAME = {'bool': 'flatbuffers_bool', 'byte': 'flatbuffers_int8', 'ubyte': 'flatbuffers_uint8', 'short': 'flatbuffers_int16',
+FBNAME = {'char': 'flatbuffers_char', 'bool': 'flatbuffers_bool', 'byte': 'flatbuffers_int8', 'ubyte': 'flatbuffers_uint8', 'short': 'flatbuffers_int16',
           'ushort': 'flatbuffers_uint16', 'int': 'flatbuffers_int32', 'uint': 'flatbuffers_uint32', 'float': 'flatbuffers_float',
           'long': 'flatbuffers_int64', 'ulong': 'flatbuffers_uint64', 'double': 'flatbuffers_double'}
 
@@ -1616,7 +1624,10 @@ def gen_glue_build(s):
     #   struct target: c _create_as_root, C _create_as_typed_root, s _start_as_root/_end_as_root, S _start_as_typed_root/_end_as_typed_root,
     #                  k _clone_as_root, K _clone_as_typed_root (hex = the struct), n _nest, N _typed_nest (hex = a finished buffer, align argument)
     #   table target:  n _nest, N _typed_nest
-    w('  if (!strcmp(f[0], "Gn")) { int rc = -1; char var = f[3][0]; uint16_t al_ = (uint16_t)(nf > 5 ? atoi(f[5]) : 0); n = hx_decode(f[4], &d); switch (key) {')
+    w('  if (!strcmp(f[0], "Gn")) { int rc = -1; char var = f[3][0]; uint16_t al_ = (uint16_t)(nf > 5 ? atoi(f[5]) : 0); size_t ao_ = nf > 6 ? (size_t)atoi(f[6]) : 0; void *blk_ = 0; n = hx_decode(f[4], &d);')
+    # _nest / _typed_nest: the source bytes at an address that is ao_ modulo 256 (a payload behind a header, an odd address ..)
+    w('    if (nf > 6) { uint8_t *t_; if (posix_memalign(&blk_, 256, n + 512)) return -1; t_ = (uint8_t *)blk_ + ao_; memcpy(t_, d, n); free(d); d = t_; }')
+    w('    switch (key) {')
     for i, tn in enumerate(tabs):
         for j, fl in enumerate(s.live_fields(tn)):
             if not fl.nested: continue
@@ -1637,7 +1648,7 @@ def gen_glue_build(s):
                     w('      case \'c\': { %s rc = %s_create_as_root(B, %s); push_reg(0); push_reg(0); } break;' % (' '.join(decl), P, ', '.join(args)))
                     w('      case \'C\': { %s rc = %s_create_as_typed_root(B, %s); push_reg(0); push_reg(0); } break;' % (' '.join(decl), P, ', '.join(args)))
             w('    } break;')
-    w('  } free(d); return rc; }')
+    w('  } if (blk_) free(blk_); else free(d); return rc; }')
     # strings, vectors, string vectors and union vectors through the generated field builders
     def str_field_cases(P):
         return ("switch (st) { case 'c': rc = %s_create(B, (const char *)d, n); break; case 's': rc = %s_create_str(B, z); break;"
